@@ -25,7 +25,7 @@ class C13(Prop):
     imports = "From Tola Require Import Py.Base Model.Fragment Model.Scaffold Model.Fasta Model.Stream Corr.Fasta."
     show_fn = "show"
     design_ref = "6/C13"
-    required_theorems = ['C13_fwd_chunks', 'C13_rev_chunks', 'C13_gap_chunks', 'C13_emit_chunks_concat', 'C13_stream_buffer_independent']
+    required_theorems = ['C13_fwd_chunks', 'C13_rev_chunks', 'C13_gap_chunks', 'C13_emit_chunks_concat', 'C13_stream_buffer_independent', 'C13_index_buffer_independent', 'C13_index_peak_bounded']
 
     def rule(self):
         return (
